@@ -41,7 +41,7 @@ class Project:
         self.base = os.path.join(base, name); os.makedirs(self.base)
         spec = {'path': share_dir}
         if quota is not None: spec['quota'] = quota
-        self.share = LocalShare(spec); self.n = 0
+        self.share = LocalShare(spec); self.n = 0; self.phase = 'before'
     def op(self, kind, bid, content='c'):
         """returns ('ok', result) or ('exc', repr)"""
         from bob.utils import hashDirectory
@@ -50,7 +50,9 @@ class Project:
                 self.n += 1
                 ws = mk_workspace(self.base, 'w%d' % self.n, content)
                 h = hashDirectory(ws)
-                path, installed = self.share.installSharedPackage(ws, bid, h, False)
+                self.phase = 'share-api'
+                try: path, installed = self.share.installSharedPackage(ws, bid, h, False)
+                finally: self.phase = 'after-api'
                 # builder._installSharedPackage replaces the workspace by a link to the shared location, whether this call
                 # installed the package or found it installed by somebody else; the link is made after the share API returned
                 if getattr(self, 'window', None): self.window()
@@ -60,7 +62,9 @@ class Project:
             if kind == 'use':
                 self.n += 1
                 ws = os.path.join(self.base, 'u%d' % self.n, 'workspace'); os.makedirs(os.path.dirname(ws))
-                path, h = self.share.useSharedPackage(ws, bid)
+                self.phase = 'share-api'
+                try: path, h = self.share.useSharedPackage(ws, bid)
+                finally: self.phase = 'after-api'
                 # builder.LocalBuilder._useSharedPackage links the workspace only after the share API returned
                 if getattr(self, 'window', None): self.window()
                 if path is not None: os.symlink(os.path.join(path, 'workspace'), ws)
@@ -85,26 +89,58 @@ def interleave(opA, opB, k, quota):
     pre2 = p2.op('install', bytes([11]) * 20, 'used')
     count = [0]; res = {}; thr = [None]
     saved = {n: getattr(sh, n) for n in HOOKS}; saved_os = {n: getattr(os, n) for n in OSHOOKS}
-    main = threading.current_thread()
-    label = [None]
+    main = threading.current_thread(); saved_unlock = sh.unlockFile
+    label = [None]; parked = threading.Event(); decided = {}
+    held = {'A': 0, 'B': 0}; state = {'A': 'before', 'B': 'before'}      # lock state of the two projects
+    me = lambda: 'A' if threading.current_thread() is main else 'B'
+    def got(): held[me()] += 1; state[me()] = 'locked'
+    def runB():
+        try: res['B'] = p2.op(*opB)
+        finally: parked.set()
     def step(lbl='share-api'):
         if threading.current_thread() is not main: return
         count[0] += 1
         if count[0] == k and thr[0] is None:
             label[0] = lbl
-            t = threading.Thread(target=lambda: res.__setitem__('B', p2.op(*opB))); thr[0] = t; t.start(); t.join(0.15)
+            # B runs until it has finished or waits for a lock that A holds (no timing: B's lock requests are probed
+            # non-blocking first, see lock()); only then A goes on
+            t = threading.Thread(target=runB); thr[0] = t; t.start(); parked.wait(20)
+    def window():
+        # A is back from the share API and has not linked its workspace yet.  A B that waited for A's lock runs now.
+        step('builder-window')
+        if thr[0] is not None and thr[0].is_alive(): thr[0].join(20)
     def wrap(f):
         def g(*a, **kw):
             step(); return f(*a, **kw)
         return g
+    def lock(fd, exclusive):
+        step()
+        if threading.current_thread() is main: saved['lockFile'](fd, exclusive); got(); return
+        import fcntl
+        try: fcntl.flock(fd, (fcntl.LOCK_EX if exclusive else fcntl.LOCK_SH) | fcntl.LOCK_NB); got(); return
+        except BlockingIOError: pass
+        parked.set()
+        saved['lockFile'](fd, exclusive); got()
+    def unlock(fd):
+        # a schedule point right after the lock was given up: whatever the next lock owner reads must be complete
+        held[me()] -= 1
+        if held[me()] == 0: state[me()] = 'released'
+        r = saved_unlock(fd); step(); return r
+    def check_unused(meta, path):
+        step()
+        # gc decides about a package: has the other project not started, does it hold a lock, or is it through?
+        decided[os.path.abspath(path)] = state['B' if me() == 'A' else 'A']
+        return saved['checkUnused'](meta, path)
     try:
         for n in HOOKS: setattr(sh, n, wrap(saved[n]))
         for n in OSHOOKS: setattr(os, n, wrap(saved_os[n]))
-        p1.window = lambda: step('builder-window')
+        sh.lockFile = lock; sh.checkUnused = check_unused; sh.unlockFile = unlock
+        p1.window = window
         res['A'] = p1.op(*opA)
     finally:
         for n in HOOKS: setattr(sh, n, saved[n])
         for n in OSHOOKS: setattr(os, n, saved_os[n])
+        sh.unlockFile = saved_unlock
     if thr[0] is not None:
         thr[0].join(5)
         if thr[0].is_alive(): return {'kind': 'deadlock', 'A': opA[:2], 'B': opB[:2], 'at_step': k}, count[0]
@@ -121,7 +157,10 @@ def interleave(opA, opB, k, quota):
         for who in ('A', 'B'):
             r = res[who][1]
             if r[0] == 'use' and r[1] is not None and not forced and not os.path.isdir(os.path.join(r[1], 'workspace')):
-                where = label[0] if who == 'A' else 'share-api'
+                # classified by the lock state of the user when gc decided about the package: gc looked while the user had not
+                # registered yet or held its locks (the locks did not protect it: 'share-api'), or after the user had
+                # registered and released its locks but before the builder made the workspace link (known window F-C15c)
+                where = 'builder-window' if decided.get(os.path.abspath(r[1])) == 'released' else 'share-api'
                 return {'kind': 'collected-while-in-use/' + str(where), 'detail': 'useSharedPackage handed out %s but gc removed it' % os.path.relpath(r[1], share_dir),
                         'A': opA[0], 'B': opB[0], 'B_started_at_step_of_A': k, 'B_started_in': label[0]}, count[0]
             if r[0] == 'install' and r[1] is not None and not forced and any(o[0].startswith('gc') for o in (opA, opB)) is False and not os.path.isdir(r[1]):
